@@ -29,12 +29,10 @@ std::pair<bool, int> TetrisLegalizer::attemptPlacement(int cell, int y) const {
     // Incompatible due to row orientation
     return std::make_pair(false, 0);
   }
-  // Need to handle non-classical orientation
+  // The legalizer is given the dimensions of the cells as placed: they already
+  // account for the orientation
   int width = cellWidth_[cell];
   int height = cellHeight_[cell];
-  if (isTurn(orient)) {
-    std::swap(width, height);
-  }
   auto p = getPossibleIntervals(width, height, y);
   if (p.empty()) {
     // Incompatible due to obstructions or placed cells
@@ -104,13 +102,7 @@ void TetrisLegalizer::placeCell(int cell) {
   cellToY_[cell] = bestY;
   cellToOrientation_[cell] = getOrientation(cell, closestRow(bestY));
   cellIsPlaced_[cell] = true;
-  // Need to handle non-classical orientation
-  int width = cellWidth_[cell];
-  int height = cellHeight_[cell];
-  if (isTurn(cellToOrientation_[cell])) {
-    std::swap(width, height);
-  }
-  instanciateCell(bestX, bestY, width, height);
+  instanciateCell(bestX, bestY, cellWidth_[cell], cellHeight_[cell]);
 }
 
 void TetrisLegalizer::instanciateCell(int x, int y, int w, int h) {
